@@ -49,3 +49,7 @@ claim("C16", EX, "exhaustive product of per-field boundary classes vs hand-writt
 claim("C17", EX, "exhaustive shape products for messages, queries and key-store files under recover / ABCI code 111222; minimal failing sets", "DESIGN.md §3 C17",
       "Every message type x every combination of <= 2/3 hostile field shapes: ValidateBasic, GetSigners, GetSignBytes, DeliverTx in three base states; every query type x request-shape product through BaseApp.Query and on the keeper in four states (incl. odd-length owners); key-store file product (version/cipher/kdf/prf/mac/iv/ciphertext/salt/c/dklen x password, MAC made valid where possible) through the real KeyStore.Load; no panic anywhere. EndBlock totality is covered in C07's graph.",
       "Requests are built as Go values and marshalled; wire-level garbage is the codec's business.", "E3+E1")
+
+claim("C14", EX, "exhaustive enumeration of messages over per-field {empty,v1,v2} domains; all ordered pairs decided by grouping on sign bytes; swap deliveries through the real ante handler", "DESIGN.md §3 C14",
+      "Every message of the 14 types over a per-field domain {empty where allowed, v1, v2} that passes ValidateBasic; for DIRECT, DIRECT_AUX and LEGACY_AMINO_JSON the sign bytes are grouped (decides all ordered pairs); one swap delivery (signature for m1 on a tx carrying m2) per ordered pair of types and per colliding class against the real chain; sign bytes recomputed in-process and in a child process.",
+      "Single-signature transactions; the three sign modes the app's TxConfig enables. Known findings F12/F13 (legacy amino JSON collisions) are listed in known_findings.json and reported as KNOWN-FINDING.", "E3+E1")
